@@ -601,7 +601,7 @@ def RadixRuns (c : RCfg) : RH c → Option (BitVec c.w) → List (RVal c.w) → 
       RadixRuns c h' (some (rankOfInt c v.1)) (ref.erase v) ops
   | h, _, ref, .swap :: ops =>
     ref ≠ [] → ∃ h' b v, h.swapTopBucket = some (h', b) ∧ v ∈ b ∧ (∀ u ∈ b, IsMin c ref u) ∧
-      RadixRuns c h' (some (rankOfInt c v.1)) (ref.diff b.toList) ops
+      RadixRuns c h' (some (rankOfInt c v.1)) (b.toList.foldl List.erase ref) ops
   | h, fr, ref, .peak :: ops =>
     ref ≠ [] → ∃ k v, h.peakTopKey = some k ∧ IsMin c ref v ∧ v.1 = k ∧ RadixRuns c h fr ref ops
   | h, _, _, .clear :: ops => RadixRuns c h.clear none [] ops
